@@ -461,6 +461,8 @@ func ruleCRCExtraPreimage(c *Ctx, rule string) {
 	var probs []string
 	nameDirect, nameLocal := false, ""
 	const msgNameExpr = "message.msgGoToDef((reflect.Type).Name(recv.elemType)[7:])"
+	// the same conversion written in line (msgGoToDef inlined by hand)
+	const msgNameInline = "strings.ToUpper((regexp.Regexp).ReplaceAllString(regexp.MustCompile(\"([A-Z])\"),(reflect.Type).Name(recv.elemType)[7:],\"_${1}\")[1:])"
 	if len(seq) != len(want) {
 		probs = append(probs, fmt.Sprintf("%d hash writes, expected %d (name; per field: type, name, array length)", len(seq), len(want)))
 	} else {
@@ -469,7 +471,7 @@ func ruleCRCExtraPreimage(c *Ctx, rule string) {
 				// the message name: either the derivation itself or a local holding it (checked below)
 				if m := reLocalName.FindStringSubmatch(seq[i].val); m != nil {
 					nameLocal = m[1]
-				} else if seq[i].val == "run([]byte(("+msgNameExpr+" + \" \")))" {
+				} else if seq[i].val == "run([]byte(("+msgNameExpr+" + \" \")))" || seq[i].val == "run([]byte(("+msgNameInline+" + \" \")))" {
 					nameDirect = true
 				} else {
 					probs = append(probs, fmt.Sprintf("write #%d hashes %s, expected the message name followed by a space", i+1, seq[i].val))
@@ -540,7 +542,7 @@ func ruleCRCExtraPreimage(c *Ctx, rule string) {
 	okName := nameDirect // the derivation was matched as part of write #1
 	for _, in := range allInstrs(ini) {
 		if st, ok := in.(*ssa.Store); ok && nameLocal != "" && ex(st.Addr) == "&local:"+nameLocal {
-			okName = ex(st.Val) == msgNameExpr
+			okName = ex(st.Val) == msgNameExpr || ex(st.Val) == msgNameInline
 		}
 	}
 	r.Check(okName, rule, "Initialize message name", c.Pos(ini.Pos()), "msgGoToDef(type name minus the 7-letter 'Message' prefix)", "the message name hashed into CRC_EXTRA is not msgGoToDef(elemType.Name()[len(\"Message\"):])")
@@ -566,8 +568,10 @@ func ruleCRCExtraPreimage(c *Ctx, rule string) {
 	r.Check(okField, rule, "Initialize field name", c.Pos(ini.Pos()), "mavname tag, else fieldGoToDef(Go field name)", "the field name hashed into CRC_EXTRA is not `mavname` tag else fieldGoToDef(field.Name)")
 	// the two name converters: regexp "([A-Z])" -> "_${1}", drop first char, case fold
 	for _, cv := range []struct{ fn, fold string }{{"fieldGoToDef", "strings.ToLower"}, {"msgGoToDef", "strings.ToUpper"}} {
-		fn := c.Fn("pkg/message", cv.fn)
+		fn := c.FnOpt("pkg/message", cv.fn)
 		if fn == nil {
+			// inlined by hand into its only caller: the conversion is then checked where it is used (pre-image above)
+			r.OK(rule, cv.fn, "-", "helper not present: conversion checked in line")
 			continue
 		}
 		rets := retInstrs(fn)
